@@ -350,7 +350,7 @@ func init() {
 			zr.Floor("return_paths", 16)
 			res.Merge(zr)
 			sw := swapx.Run(def, core.Pkgs("./mat"))
-			sw.Floor("swaps_guarded_by_a_comparison_of_two_variables", 4)
+			sw.Floor("swaps_guarded_by_a_comparison_of_two_variables", 2)
 			res.Merge(sw)
 			pu := paramuse.Run(def, core.Pkgs("./mat"))
 			pu.Floor("parameters", 550)
